@@ -32,7 +32,8 @@ META = dict(
          "ReturnDepositCoin / Voting / ReturnVotes / CancelProducer checkers deciding each such transaction against the pre-block "
          "state, and the balances are read from the real accessors after every block.",
     note="DPoS half only (CR candidate / member deposits are not modelled); unit-level driver; bounded: 3 producers, 2 stake addresses, "
-         "<= 2 items per block, 2-3 free blocks after fixed preludes, amounts from a small set including one unit above each balance.",
+         "<= 2 items per block, 2-3 free blocks after fixed preludes (votes / cancellation / penalties / after a POW period / after the expiry of a v2 producer), amounts "
+         "from a small set including one unit above each balance; a registration pays 1 ELA more than the locked deposit.",
     technique="TLA+ invariants + action property (TLC exhaustive) + per-edge replay with real checker verdicts and real balance accessors",
 )
 
@@ -47,17 +48,22 @@ def run(chk):
         jobs = [("bal-basic", "basic", K, 9, 1, 0, 2000, 4, 6), ("bal-votes", "votes", KS, 11, 1, 0, 2500, 4, 8),
                 ("bal-votes-pairs", "votes", KS, 9, 2, 0, 2000, 4, 1), ("bal-penalty", "penalty", K, 11, 1, 0, 1500, 4, 1),
                 ("bal-penalty-pairs", "penalty", KS, 10, 2, 0, 700, 4, 1), ("bal-cancel-pairs", "cancel", K, 12, 2, 0, 3000, 4, 4),
-                ("bal-cancel", "cancel", K, 13, 1, 0, 2000, 4, 2)]
+                ("bal-cancel", "cancel", K, 13, 1, 0, 2000, 4, 2), ("bal-switch", "switch", KS, 20, 1, 0, 1000, 4, 1),
+                ("bal-late", "late", K, 13, 1, 0, 1000, 4, 1)]
         big = [("bal-basic-pairs", "basic", KS, 8, 2, 0), ("bal-votes-deep", "votes", KS, 10, 2, 0)]
     else:
         jobs = [("bal-votes", "votes", KS, 10, 1, 0, 240, 3, 2), ("bal-cancel", "cancel", K, 12, 1, 0, 240, 3, 1),
-                ("bal-basic", "basic", KS, 8, 2, 0, 200, 3, 20)]
+                ("bal-basic", "basic", KS, 8, 2, 0, 200, 3, 20),
+                # penalties (emergency inactivation, top-up, activation) and the balances after a whole POW period
+                ("bal-penalty", "penalty", K, 11, 1, 0, 160, 3, 1), ("bal-switch", "switch", KS, 20, 1, 0, 120, 3, 2),
+                # the locked deposit of an expired v2 producer, its expired votes, an activation taking effect
+                ("bal-late", "late", K, 13, 1, 0, 120, 3, 2)]
     import concurrent.futures
     vf._copy_spec(os.path.join(vf.SPEC, "Consensus"))
     with concurrent.futures.ThreadPoolExecutor(max_workers=2) as ex:
         xh = ex.submit(dc.exhaustive_all, chk, big) if big else None
         sim = ex.submit(dc.simulate, chk, "bal-sim", "basic", KS, 30, 40, vf.seed()) if thorough else None
-        allbehs = dc.explore_all(chk, jobs)
+        allbehs = dc.explore_all(chk, jobs, parallel=3 if thorough else 6)
         if xh:
             xh.result()
         if sim:
@@ -87,6 +93,10 @@ def run(chk):
                  any(x.get("kind") in ("mismatch", "violation") for x in recs))
 
     chk.assumptions += dc.ASSUMPTIONS + [
+        "TLC bounds: preludes basic / votes / cancel / penalty / switch / late (6-18 forced blocks), then 2 free blocks (quick; thorough 2-3) "
+        "with 1 item per block (2 after the basic prelude, printed 1 edge in 20), no RollbackTo steps; 120-240 behaviours per "
+        "configuration are replayed (quick), chosen so that every change kind of the last two blocks occurs; the consensus mode "
+        "transactions are not in the alphabet (ReturnVotes in POW mode is refused by a stage of the checker the driver does not call)",
         "the CR half of the property (ReturnCRDepositCoin, CR candidate / member deposits in cr/state) is not covered",
         "a penalty larger than the free part of a deposit makes AvailableAmount negative by design; the rule checked is that no "
         "withdrawal (decrease of TotalAmount) leaves it negative, that TotalAmount / DepositAmount / Penalty / vote rights / used votes "
